@@ -109,6 +109,27 @@ func c14Scenarios(thorough bool) []c14Scenario {
 				{Op: "completion", Doc: "main.journal", Line: 8, Char: 4},
 				{Op: "formatting", Doc: "main.journal"},
 			}},
+		// two documents outside the root's include tree, each including a file with
+		// declarations of its own: their analyses run side by side in a workspace
+		{Name: "S8-workspace-two-outside-documents", Workspace: true, Bound: b(1, 2),
+			Files: map[string]string{
+				"main.journal":  "commodity $1,000.00\naccount assets:cash\n\n2001-01-01 shop\n    expenses:food  $5\n    assets:cash\n",
+				"side1.journal": "include decl1.journal\n\n2001-02-01 a\n    zzz:one  1 EUR\n    zzz:two  -1 EUR\n",
+				"decl1.journal": "commodity 1.000,00 EUR\naccount zzz:one\n",
+				"side2.journal": "include decl2.journal\n\n2001-03-01 b\n    zzz:one  1 CHF\n    zzz:two  -1 CHF\n",
+				"decl2.journal": "commodity 1.000,00 CHF\naccount zzz:two\n",
+				"third.journal": "2001-04-01 c\n    zzz:one  1 EUR\n    zzz:two  -1 CHF\n",
+			},
+			Msgs: []wire.Msg{
+				{Op: "initialized"},
+				{Op: "open", Doc: "side1.journal", Text: "include decl1.journal\n\n2001-02-01 a\n    zzz:one  1 EUR\n    zzz:two  -1 EUR\n"},
+				{Op: "open", Doc: "side2.journal", Text: "include decl2.journal\n\n2001-03-01 b\n    zzz:one  1 CHF\n    zzz:two  -1 CHF\n"},
+				{Op: "open", Doc: "third.journal", Text: "2001-04-01 c\n    zzz:one  1 EUR\n    zzz:two  -1 CHF\n"},
+				{Op: "completion", Doc: "third.journal", Line: 1, Char: 4},
+				{Op: "drain"},
+				{Op: "diagnostics", Doc: "third.journal"},
+				{Op: "diagnostics", Doc: "side1.journal"},
+			}},
 		{Name: "S4-two-docs-semantic-tokens", Files: files, Bound: b(1, 2), Msgs: []wire.Msg{
 			{Op: "open", Doc: "main.journal", Text: c14Main0},
 			{Op: "open", Doc: "inc.journal", Text: c14Inc0},
